@@ -35,15 +35,27 @@ class SymFactory(NativeObj):
             return self._concrete(name, "bv", 0, (1 << width) - 1)
         return self._interp.ctx.sym_bv(name, width)
 
+    def sbv(self, name, width, lo=None, hi=None):
+        """a width-bit word read as a SIGNED number in [lo, hi]: a bit-vector term symbolically (the range is assumed
+        with signed comparisons), a signed python int natively"""
+        if self._concrete is not None:
+            return self._concrete(name, "sbv:%d" % width, lo, hi)
+        v = self._interp.ctx.sym_bv(name, width)
+        if lo is not None:
+            self._interp.ctx.assume(z3.BitVecVal(lo, width) <= v.t)
+        if hi is not None:
+            self._interp.ctx.assume(v.t <= z3.BitVecVal(hi, width))
+        return v
+
     @property
     def symbolic(self):
         return self._concrete is None
 
 
 def install_api(I):
-    def check(interp, name, cond):
+    def check(interp, name, cond, generalize=None):
         cz = interp.cond_term(cond)
-        interp.ctx.oblige(str(name), cz)
+        interp.ctx.oblige(str(name), cz, generalize=[g for g in generalize if isinstance(g, SV)] if generalize else None)
         return None
 
     def assume(interp, cond):
@@ -146,6 +158,20 @@ def install_api(I):
     def bv_mul(interp, a, b, w):
         return SV(z3.simplify(_tobv(a, w) * _tobv(b, w)))
 
+    def bv_ashr(interp, a, b, w):
+        return SV(z3.simplify(_tobv(a, w) >> _tobv(b, w)))
+
+    def bv_sle(interp, a, b, w):
+        return ops.simp(_tobv(a, w) <= _tobv(b, w))
+
+    def bv_smin(interp, a, b, w):
+        x, y = _tobv(a, w), _tobv(b, w)
+        return SV(z3.simplify(z3.If(x <= y, x, y)))
+
+    def bv_smax(interp, a, b, w):
+        x, y = _tobv(a, w), _tobv(b, w)
+        return SV(z3.simplify(z3.If(x >= y, x, y)))
+
     def bv_eq(interp, a, b, w):
         return ops.simp(_tobv(a, w) == _tobv(b, w))
 
@@ -201,7 +227,8 @@ def install_api(I):
         mk_opresult=NativeFn(mk_opresult, "mk_opresult"),
         bv_const=NativeFn(bv_const, "bv_const"), bv_shl=NativeFn(bv_shl, "bv_shl"), bv_lshr=NativeFn(bv_lshr, "bv_lshr"),
         bv_or=NativeFn(bv_or, "bv_or"), bv_and=NativeFn(bv_and, "bv_and"), bv_eq=NativeFn(bv_eq, "bv_eq"),
-        bv_ult=NativeFn(bv_ult, "bv_ult"), mk_ssa=NativeFn(mk_ssa, "mk_ssa"), bv_sext=NativeFn(bv_sext, "bv_sext"), bv_zext=NativeFn(bv_zext, "bv_zext"),
+        bv_ult=NativeFn(bv_ult, "bv_ult"), bv_ashr=NativeFn(bv_ashr, "bv_ashr"), bv_sle=NativeFn(bv_sle, "bv_sle"),
+        bv_smin=NativeFn(bv_smin, "bv_smin"), bv_smax=NativeFn(bv_smax, "bv_smax"), mk_ssa=NativeFn(mk_ssa, "mk_ssa"), bv_sext=NativeFn(bv_sext, "bv_sext"), bv_zext=NativeFn(bv_zext, "bv_zext"),
         bv_add=NativeFn(bv_add, "bv_add"), bv_sub=NativeFn(bv_sub, "bv_sub"), bv_mul=NativeFn(bv_mul, "bv_mul"),
         rt_shape=NativeFn(rt_shape, "rt_shape"),
         rt_stride=NativeFn(rt_stride, "rt_stride"),
